@@ -56,6 +56,7 @@ GhostInit(S) ==
     grants   |-> {},                      \* <<voter, term, candidate>>
     dur      |-> [n \in S |-> <<0, 0, "">>],   \* durable <<CurrentTerm, LastVoteTerm, LastVoteCand>>, tracked write by write
     hpend    |-> [n \in S |-> <<>>],      \* handle lines not yet matched with a state line
+    ginc     |-> EmptyFn,                 \* <<voter, term, candidate>> -> the voter's incarnation when it granted
     fprace   |-> [n \in S |-> FALSE],     \* a heartbeat was handled (fast path) while n's main goroutine is inside a store write
     fsmLast  |-> [n \in S |-> 0],         \* last index handed to the FSM in this epoch
     fsmOpen  |-> [n \in S |-> <<0, 0>>],  \* snapshot last opened
@@ -416,11 +417,15 @@ DoHandle(ln) ==
       gr == IF ln.kind = "rv" /\ Has(ln, "resp") /\ ln.resp.granted THEN {<<n, ln.req.term, ln.req.cand>>} ELSE {}
       ok == ln.kind \in {"ae", "hb", "is"} /\ Has(ln, "resp") /\ ln.resp.ok
       dupd == Has(ln, "dup") /\ ln.dup     \* a duplicate injected by the network, not a transfer the leader repeated
-      V  == {<<"C06", "TwoVotesInTerm", <<n, x[2], x[3], ln.req.cand>>>> :
-               x \in {y \in g.grants : gr # {} /\ y[1] = n /\ y[2] = ln.req.term /\ y[3] # ln.req.cand}}
+      twice == {y \in g.grants : gr # {} /\ y[1] = n /\ y[2] = ln.req.term /\ y[3] # ln.req.cand}
+      V  == {<<"C06", "TwoVotesInTerm", <<n, x[2], x[3], ln.req.cand>>>> : x \in twice}
+            \* C10: the earlier vote was cast (and persisted) by an earlier incarnation: the restart lost it
+            \cup {<<"C10", "RestartForgotVote", <<n, x[2], x[3], ln.req.cand>>>> :
+                    x \in {y \in twice : y \in DOMAIN g.ginc /\ g.ginc[y] # obs[n].inc}}
 
   IN /\ g' = [g EXCEPT !.hpend[n] = Append(@, [regrant |-> (gr # {} /\ gr \subseteq g.grants)] @@ ln),
                        !.grants = @ \cup gr,
+                       !.ginc = [y \in (gr \ DOMAIN @) |-> obs[n].inc] @@ @,
                        !.seenTerm[n] = IF ln.kind \in {"ae", "hb", "is", "rv"} THEN Max(@, ln.req.term) ELSE @,
                        !.tn[n] = IF ln.kind = "tn" THEN <<@[1] + 1, @[2]>> ELSE @,
                        !.lastAck = IF ok THEN [p \in {<<ln.src, ln.req.term, n>>} |-> l] @@ @ ELSE @,
@@ -506,6 +511,11 @@ DoFsm(ln) ==
         V == (IF i \in DOMAIN g.agreed /\ g.agreed[i] = e THEN {}
               ELSE IF fromPrefix THEN {<<"C02", "AppliedLeaderPrefixBelowSnapshot", <<n, i, e, obs[n].leader>>>>}
               ELSE {<<"C02", "AppliedNotAgreed", <<n, i, e>>>>})
+             \* state machine safety, directly: no FSM is handed at index i something else than what was reported
+             \* committed there first (applied by an FSM, acknowledged to a caller)
+             \* (the unverified-prefix finding has its own name above)
+             \cup (IF i \in DOMAIN g.reported /\ g.reported[i] # e /\ i > MaxSet(g.burned) /\ ~fromPrefix
+                   THEN {<<"C02", "AppliedDiffersFromReported", <<n, i, e, g.reported[i]>>>>} ELSE {})
              \cup (IF i > g.fsmLast[n] THEN {} ELSE {<<"C02", "ApplyOutOfOrder", <<n, i, g.fsmLast[n]>>>>})
              \cup {<<"C02", "SkippedCommand", <<n, k>>>> :
                      k \in {j \in (g.fsmLast[n] + 1)..(i - 1) : j > MaxSet(g.burned) /\ (j \notin DOMAIN g.agreed \/ g.agreed[j][2] = "cmd")}}
